@@ -13,6 +13,116 @@ from ..pe import Interp
 level = "other"
 
 
+def programs(info, depth, thorough):
+    """well-formed, fully closed programs over the structure alphabet"""
+    openers = list(info.items())  # opener -> (class, closer)
+    leafs = ["", "1"] + (["1 2"] if thorough else [])
+    memo = {}
+
+    def P(d):
+        if d in memo:
+            return memo[d]
+        out = list(leafs)
+        if d > 0:
+            inner = P(d - 1)
+            # a diverse sample of the inner level: the leaves plus, for every
+            # opener, its first (empty-bodied), a one-leaf and a last shape
+            small = list(leafs)
+            by_op = {}
+            for q in inner:
+                if q and q[0] in info:
+                    by_op.setdefault(q[0], []).append(q)
+            for op0, lst in by_op.items():
+                pick = [lst[0], lst[min(1, len(lst) - 1)], lst[-1]]
+                if thorough:
+                    pick += lst[2:6]
+                for q in pick:
+                    if q not in small:
+                        small.append(q)
+            for op, (cls, cl) in openers:
+                name = cls.name
+                shapes = []
+                if name == "IfStatement":
+                    shapes = [[b] for b in small] + [
+                        [a, b] for a in small[:3] for b in small[:3]]
+                    if thorough:
+                        shapes += [[a, b, c] for a in small[:2]
+                                   for b in small[:2] for c in small[:2]]
+                elif name == "ForLoop":
+                    shapes = [[b] for b in small] + [["v", b]
+                                                     for b in small[:4]]
+                elif name == "WhileLoop":
+                    shapes = [[b] for b in small] + [
+                        [a, b] for a in small[:3] for b in small[:3]]
+                elif name == "FunctionCall":
+                    shapes = [["f"]] + [["f", b] for b in small[:4]] + [
+                        ["f:1", b] for b in small[:3]]
+                elif name == "Lambda":
+                    shapes = [[b] for b in small] + [["2", b]
+                                                     for b in small[:4]]
+                elif name == "ListLiteral":
+                    shapes = [[]] + [[b] for b in small] + [
+                        [a, b] for a in small[:3] for b in small[:3]]
+                else:
+                    shapes = [[b] for b in small]
+                for sh in shapes:
+                    body = op + "|".join(sh) + cl
+                    out.append(body)
+                    if thorough:
+                        out.append("1" + body)
+        memo[d] = out
+        return out
+    return P(depth)
+
+
+def closer_sweep(chk, repo, it, tier):
+    """For every generated closed program and every droppable suffix of its
+    trailing closers, the current tokenise+parse (interpreted) must build the
+    same tree."""
+    from ..pe import PRaise  # noqa: PLC0415
+    pp = it.module("vyxal.parse")
+    lx = it.module("vyxal.lexer")
+    parse, tokenise = pp.get("parse"), lx.get("tokenise")
+    info = pp.get("STRUCTURE_INFORMATION")
+    closers = {v[1] for v in info.values()}
+    thorough = tier == "thorough"
+    progs = programs(info, 3 if thorough else 2, thorough)
+    progs = list(dict.fromkeys(progs))
+    if not thorough and len(progs) > 1500:
+        progs = progs[::max(1, len(progs) // 1500)]
+    cache = {}
+
+    def tree(src):
+        if src not in cache:
+            it.steps = 0
+            try:
+                cache[src] = repr(list(parse(tokenise(src))))
+            except PRaise as exc:
+                cache[src] = f"<raised {exc.cls_name}{exc.pargs}>"
+            except StopIteration:
+                cache[src] = "<raised StopIteration>"
+        return cache[src]
+    n = 0
+    bad = None
+    for p in progs:
+        k = 0
+        while k < len(p) and p[len(p) - 1 - k] in closers:
+            k += 1
+        full = tree(p)
+        for drop in range(1, k + 1):
+            n += 1
+            if tree(p[:-drop]) != full:
+                bad = bad or (p, p[:-drop], full, tree(p[:-drop]))
+    chk.ob("C04.closed-and-truncated-parse-alike", "tokenise + parse",
+           bad is None,
+           f"{bad[0]!r} parses to {bad[2][:120]} but with the trailing "
+           f"closer(s) left off ({bad[1]!r}) to {bad[3][:120]}" if bad else "",
+           repo.mod("parse").rel, witness=repr(bad[1]) if bad else None,
+           sample={"closed programs": len(progs), "truncations compared": n})
+    chk.unit("closed programs generated", len(progs))
+    chk.unit("truncations compared", n)
+
+
 def check(chk, repo, tier):
     chk.trusted_base += ["CPython ast", "vystatic.pe interpreter subset"]
     it = Interp(repo)
@@ -25,6 +135,9 @@ def check(chk, repo, tier):
     n = law_closer_optional(chk, lp, fr, "C04.closer-optional", LF)
     chk.unit("lexer probes (closer law)", n)
     chk.unit("lexer probes (all)", lp.n_probes)
+
+    # ---- lexer + parser together: dropping trailing closers ------------------------------
+    closer_sweep(chk, repo, it, tier)
 
     # ---- parser -------------------------------------------------------------------------
     pmod = repo.mod("parse")
@@ -137,7 +250,10 @@ def check(chk, repo, tier):
         "two class characters. Parser (structural): the branch collector "
         "loops while tokens remain, never raises, returns once, and does not "
         "store the outermost closer; parse() never consults the closing "
-        "state and none of its rejections depends on it. Does not decide the "
-        "full equality of the two parses (a two-run relational property).")
+        "state and none of its rejections depends on it. Front end as a "
+        "whole: for ~700 (thorough: all depth-3) closed programs generated "
+        "from the structure table and every droppable suffix of their "
+        "trailing closers, the interpreted tokenise+parse builds the same "
+        "tree (bounded; the structural rules carry the general argument).")
 
 
